@@ -188,6 +188,19 @@ def reuse_lifecycle_scenarios(T):
     out.append({"name": "dial-hang-close", "origin": "scenario",
                 "steps": [{"a": "Start", "c": 1}, {"a": "Dial", "d": 1}, {"a": "TClose"}, {"a": "TCloseRet"},
                           {"a": "Return", "c": 1}]})
+    # a dial that returns a connection although the transport has been closed meanwhile (the dial function ignores the
+    # cancellation): the connection must be closed, never registered
+    out.append({"name": "dial-succeeds-after-close", "origin": "scenario", "dial_ignores_ctx": True, "repeat": 2,
+                "steps": [{"a": "Start", "c": 1}, {"a": "Dial", "d": 1}, {"a": "TClose"}, {"a": "TCloseRet"},
+                          {"a": "Return", "c": 1}, {"a": "DialRet", "d": 1, "ok": True}, {"a": "CloseReq", "x": 1}]})
+    # a dial that completes while Close() is still busy closing another connection (t.m held, transport context not
+    # yet cancelled): the new connection must not outlive Close
+    out.append({"name": "dial-completes-inside-close", "origin": "scenario", "repeat": 2,
+                "steps": [{"a": "Start", "c": 1}, {"a": "Dial", "d": 1}, {"a": "DialRet", "d": 1, "ok": True},
+                          {"a": "WriteReq", "x": 1, "c": 1}, {"a": "WriteRet", "x": 1, "c": 1, "ok": True},
+                          {"a": "Start", "c": 2}, {"a": "Dial", "d": 2}, {"a": "HoldClose", "n": 1}, {"a": "TClose"},
+                          {"a": "AwaitHeldClose"}, {"a": "DialRet", "d": 2, "ok": True}, {"a": "Sleep", "ms": 50},
+                          {"a": "ReleaseHeld"}, {"a": "TCloseRet"}, {"a": "CloseReq", "x": 2}]})
     # silence with an unbounded context: only the armed 6 s deadline (virtual) ends the call
     out.append({"name": "silence-fresh", "origin": "scenario",
                 "steps": [{"a": "Start", "c": 1}, {"a": "Dial", "d": 1}, {"a": "DialRet", "d": 1, "ok": True},
@@ -240,9 +253,10 @@ def pipeline_scenarios(T):
                 "steps": [{"a": "Start", "c": 1}, {"a": "Dial", "x": 1}, {"a": "Start", "c": 2}, {"a": "Sleep", "ms": 20},
                           {"a": "TClose"}, {"a": "TCloseRet"}, {"a": "Return", "c": 1}, {"a": "Return", "c": 2}]})
     # a dial that succeeds after Close: the connection must be closed by the dial goroutine
-    out.append({"name": "dial-succeeds-after-close", "origin": "scenario",
+    # (the dial function ignores the cancellation and returns a connection late: it must be closed by the dial goroutine)
+    out.append({"name": "dial-succeeds-after-close", "origin": "scenario", "dial_ignores_ctx": True, "repeat": 2,
                 "steps": [{"a": "Start", "c": 1}, {"a": "Dial", "x": 1}, {"a": "TClose"}, {"a": "TCloseRet"},
-                          {"a": "Return", "c": 1}]})
+                          {"a": "Return", "c": 1}, {"a": "DialRet", "x": 1, "ok": True}, {"a": "UClose", "x": 1}]})
     # Close with queries in flight
     out.append({"name": "close-with-in-flight", "origin": "scenario",
                 "steps": fresh(1, 1) + [{"a": "Start", "c": 2}, {"a": "ExchReq", "x": 1, "c": 2}, {"a": "Start", "c": 3},
@@ -341,6 +355,8 @@ def shape(mode, rec, info):
         if ev.get("vc") not in (None, c):
             return "%s:foreign-reply-returned" % mode
         return "%s:success-not-explained:writes=%d:dials=%d" % (mode, nwrites, ndial)
+    if mode == "reuse" and ev.get("ev") == "WriteReq" and ev.get("wok") is False:
+        return "reuse:write-is-not-the-calls-framed-query"
     if mode == "pipeline" and ev.get("ev") == "Parked":
         return "pipeline:queued-on-dialing-connection-beyond-its-queue-limit"
     if mode == "reuse" and ev.get("ev") == "CloseReq" and info.get("line_in_trace", 0) >= 2:
